@@ -113,8 +113,42 @@ func (r *exprRenderer) render(e *AExpr, path string) {
 		default:
 			r.sb.WriteString(fmt.Sprint(e.V))
 		}
-	case "raw", "kw", "type":
+	case "raw", "kw", "type", "tprim", "tbad":
 		r.sb.WriteString(fmt.Sprint(e.V))
+	case "tcoll":
+		x.Name = [2]int{r.sb.Len(), r.sb.Len() + len(e.Fn)}
+		r.sb.WriteString(e.Fn + "(")
+		r.render(e.E, sub("e"))
+		r.sb.WriteString(")")
+	case "topt":
+		x.Name = [2]int{r.sb.Len(), r.sb.Len() + len("optional")}
+		r.sb.WriteString("optional(")
+		r.render(e.E, sub("e"))
+		r.sb.WriteString(")")
+	case "tobj":
+		x.Name = [2]int{r.sb.Len(), r.sb.Len() + len("object")}
+		r.sb.WriteString("object({" + r.sp())
+		for i, it := range e.Items {
+			if i > 0 {
+				r.sb.WriteString("," + r.sp())
+			}
+			kp := sub(fmt.Sprintf("items.%d.key", i+1))
+			r.ext[kp] = &ExprExt{Kind: "id", Full: [2]int{r.sb.Len(), r.sb.Len() + len(fmt.Sprint(it.Key.V))}}
+			r.sb.WriteString(fmt.Sprint(it.Key.V))
+			r.sb.WriteString(" = ")
+			r.render(it.Val, sub(fmt.Sprintf("items.%d.val", i+1)))
+		}
+		r.sb.WriteString(r.sp() + "})")
+	case "ttup":
+		x.Name = [2]int{r.sb.Len(), r.sb.Len() + len("tuple")}
+		r.sb.WriteString("tuple([")
+		for i, el := range e.Es {
+			if i > 0 {
+				r.sb.WriteString("," + r.sp())
+			}
+			r.render(el, sub(fmt.Sprintf("es.%d", i+1)))
+		}
+		r.sb.WriteString("])")
 	case "ref":
 		base := r.sb.Len()
 		txt, ext := refText(e.Steps)
